@@ -161,7 +161,9 @@ def c03_resolution(ctx, geom, payload, mode, native, factors):
         ctx.ensure("integrate(field coarser along axis 0 and finer along axis 1) == native integral", eq(got, spec_integral(field_native, w, vol, dim)))
 
 
-ALPHABET = {"native": (1, 1), "coarser": (2, 2), "finer": None, "other-coarser": (1, 2)}
+# native resolution (6, 4): 'coarser' = (3, 2), 'other-coarser' = (2, 2) — the two coarse shapes do not divide each other (3 -> 2), so a
+# voxel volume rebuilt from another coarse cache instead of from the native one is exposed
+ALPHABET = {"native": (1, 1), "coarser": (2, 2), "finer": None, "other-coarser": (3, 2)}
 
 
 def _hist_cases(tier):
@@ -191,11 +193,12 @@ def _at(ctx, native, letter, payload, name):
     cite="The value returned for given data does not depend on what was integrated earlier with the same geometry object",
     note="relational: object that served an arbitrary earlier call sequence vs fresh object, for each final resolution")
 def c03_history(ctx, geom, history):
-    native = (2, 2)
-    used, w, vol = make_geometry(ctx, geom, native)
-    for i, letter in enumerate(history.split("/")):
-        used.integrate(_at(ctx, native, letter, "scalar", f"h{i}"))
+    native = (6, 4)
     for letter in ("native", "coarser", "finer", "other-coarser"):
+        # a new object per final call, taken through the same history (an earlier final call must not repair the state)
+        used, w, vol = make_geometry(ctx, geom, native)
+        for i, h in enumerate(history.split("/")):
+            used.integrate(_at(ctx, native, h, "scalar", f"h{i}"))
         x = _at(ctx, native, letter, "scalar", "x" + letter[:2])
         fresh, w2, vol2 = make_geometry(ctx, geom, native)        # same symbols => the same geometry, fresh object
         ctx.ensure(f"after history [{history}]: integrate({letter} data) equals a fresh object's result", eq(used.integrate(x), fresh.integrate(x)))
